@@ -1,6 +1,7 @@
 package main
 
 import (
+	"reflect"
 	"crypto/sha256"
 	"fmt"
 	"go/constant"
@@ -626,6 +627,8 @@ func (in *Interp) runInit(pkg *ssa.Package) {
 		return
 	}
 	if skipInitPkg(pkg.Pkg.Path()) {
+		// the initialiser is not executed: every global it assigns must not read as a silent zero value
+		in.poisonInitialisedGlobals(pkg, fn)
 		return
 	}
 	// run outside any journaling / decision context: inits must be concrete
@@ -637,9 +640,18 @@ func (in *Interp) runInit(pkg *ssa.Package) {
 	func() {
 		defer func() {
 			if r := recover(); r != nil {
-				switch r.(type) {
+				switch x := r.(type) {
 				case pathEnd, *GoPanic:
-					// whole init aborted: globals keep what they had
+					// whole init aborted: what it had not assigned yet must not read as a silent zero
+					in.poisonInitialisedGlobalsIfZero(pkg, fn)
+				case error:
+					// a poisoned operand (a global of a package whose initialiser is not executed) reached an
+					// operation of this initialiser: same treatment
+					if strings.Contains(x.Error(), "main.Poison") {
+						in.poisonInitialisedGlobalsIfZero(pkg, fn)
+					} else {
+						panic(r)
+					}
 				default:
 					panic(r)
 				}
@@ -652,13 +664,76 @@ func (in *Interp) runInit(pkg *ssa.Package) {
 	in.pc, in.pcKey = savePC, saveKey
 }
 
+// poisonInitialisedGlobals marks every package-level variable that the (skipped) initialiser of pkg stores
+// to - directly or through a field/element address - as poisoned: a later read outside initialisation ends
+// the path as unsupported instead of yielding the zero value.
+func (in *Interp) poisonInitialisedGlobalsIfZero(pkg *ssa.Package, init *ssa.Function) {
+	in.poisonGlobals(pkg, init, true, "initialiser of "+pkg.Pkg.Path()+" was aborted")
+}
+
+func (in *Interp) poisonInitialisedGlobals(pkg *ssa.Package, init *ssa.Function) {
+	in.poisonGlobals(pkg, init, false, "initialiser of "+pkg.Pkg.Path()+" is not executed")
+}
+
+func (in *Interp) poisonGlobals(pkg *ssa.Package, init *ssa.Function, onlyZero bool, why string) {
+	seen := map[*ssa.Function]bool{}
+	var scan func(fn *ssa.Function)
+	scan = func(fn *ssa.Function) {
+		if fn == nil || seen[fn] || len(fn.Blocks) == 0 {
+			return
+		}
+		seen[fn] = true
+		for _, b := range fn.Blocks {
+			for _, ins := range b.Instrs {
+				switch x := ins.(type) {
+				case *ssa.Store:
+					addr := x.Addr
+					for {
+						switch a := addr.(type) {
+						case *ssa.FieldAddr:
+							addr = a.X
+							continue
+						case *ssa.IndexAddr:
+							addr = a.X
+							continue
+						}
+						break
+					}
+					if g, ok := addr.(*ssa.Global); ok && g.Pkg == pkg {
+						if o, ok := in.globals[g]; ok {
+							if onlyZero {
+								in.initMode++
+								z := in.zero(o.typ)
+								in.initMode--
+								if !reflect.DeepEqual(o.val, z) {
+									continue
+								}
+							}
+							o.val = Poison{why}
+						} else {
+							et := g.Type().(*types.Pointer).Elem()
+							in.globals[g] = &Object{id: 0, typ: et, label: g.String(), val: Poison{why}}
+						}
+					}
+				case *ssa.Call:
+					// init#1, init#2 ... of the same package
+					if callee := x.Call.StaticCallee(); callee != nil && callee.Pkg == pkg && strings.HasPrefix(callee.Name(), "init#") {
+						scan(callee)
+					}
+				}
+			}
+		}
+	}
+	scan(init)
+}
+
 func skipInitPkg(path string) bool {
 	// standard library and third-party initialisers are not executed unless listed
 	if strings.HasPrefix(path, "github.com/NethermindEth/juno") {
 		return false
 	}
 	switch path {
-	case "errors", "io", "io/fs", "context", "os", "bytes", "strings", "unicode/utf8", "encoding/binary",
+	case "errors", "io", "io/fs", "internal/oserror", "context", "os", "bytes", "strings", "unicode/utf8", "encoding/binary",
 		"github.com/cockroachdb/pebble/v2/batchrepr", "github.com/cockroachdb/pebble/v2/internal/base",
 		"github.com/cockroachdb/pebble/internal/base", "bufio", "encoding/hex", "strconv", "sort", "slices",
 		"github.com/sourcegraph/conc", "github.com/sourcegraph/conc/stream", "github.com/sourcegraph/conc/pool", "github.com/sourcegraph/conc/panics":
